@@ -944,6 +944,70 @@ def c12_cutoff(params, tier):
     return [("c12_cutoff:%s" % sorted(p.items()), b.h, U if p["usage"] else NU, {})]
 
 
+@family("C12", "C13", "C02", "C15")
+def connection_accounting(params, tier):
+    """Connections of an app come and go in irregular ways - a bind that fails inside the server, a connection lost
+    before or right after its bind, a second connection of the same side, a closing handshake, a connection that
+    never got as far as the protocol - around a (re)start.  Afterwards one quiet client of that app binds, waits
+    through a sweep, opens a mailbox, stays subscribed for half an hour, is joined by a second side whose message it
+    must receive, adds, and leaves; after that everything must be swept."""
+    kinds = ("bad-bind", "lost-unbound", "lost-bound", "same-side-lost", "closing", "halfconn", "bind-twice", "none")
+    if params is None:
+        return [{"kind": k, "restart": r, "n": n, "usage": u} for k in kinds for r in (1, 0) for n in (1, 2)
+                for u in ((0, 1) if n == 1 else (1,))]
+    p = params
+    b = HB()
+    b.tag = "acct"
+    c0 = b.conn("app", "s1")
+    b.send(c0, type="open", mailbox="m0")         # the app has rows of its own
+    O = b.conn("app2", "s1")
+    b.send(O, type="open", mailbox="o0")
+    if p["restart"]:
+        b.restart()
+    else:
+        b.drop(c0)
+    k = p["kind"]
+    Q = None
+    for i in range(p["n"]):
+        if k == "bad-bind":
+            c = b.conn()
+            b.send(c, type="bind", appid="app", side="s2", client_version=["python"])
+            b.drop(c)
+        elif k == "lost-unbound":
+            c = b.conn()
+            b.drop(c)
+        elif k == "lost-bound":
+            c = b.conn("app", "s2")
+            b.drop(c)
+        elif k == "same-side-lost":
+            if Q is None:
+                Q = b.conn("app", "s3")
+            c = b.conn("app", "s3")
+            b.drop(c)
+        elif k == "closing":
+            c = b.conn("app", "s2")
+            b.h.append(["closing", c])
+            b.drop(c)
+        elif k == "halfconn":
+            b.h.append(["halfconn", "h%d" % i])
+        elif k == "bind-twice":
+            c = b.conn("app", "s2")
+            b.send(c, type="bind", appid="app", side="s2")
+            b.drop(c)
+    if Q is None:
+        Q = b.conn("app", "s3")
+    b.adv(310)
+    b.send(Q, type="open", mailbox="m1")
+    b.adv(1800)
+    P = b.conn("app", "s4")
+    b.send(P, type="open", mailbox="m1")
+    b.add(P, "hello")
+    b.add(Q, "late")
+    b.drop(Q)
+    b.drop(P)
+    return [("connection_accounting:%s" % sorted(p.items()), b.h, U if p["usage"] else NU, {})]
+
+
 @family("C12")
 def c12_away(params, tier):
     """A client stays connected but silent for a long time (sweeps keep its channel alive), goes away for
